@@ -368,6 +368,24 @@ pub struct C07;
 #[derive(Clone, Debug)]
 struct C07Item {
     cfgs: Vec<(Cfg, Schedule)>,
+    /// horizon override (fine-grid orbits are millions of calls long)
+    horizon: Option<usize>,
+}
+
+/// A ratio r (as an f64) whose reciprocal, as the resamplers compute it (1.0 / r), is exactly
+/// the dyadic step `t`.
+fn ratio_for_step(t: f64) -> Option<f64> {
+    let r0 = 1.0 / t;
+    let cands = [r0, f64::from_bits(r0.to_bits() + 1), f64::from_bits(r0.to_bits() - 1)];
+    cands.into_iter().find(|r| 1.0 / *r == t)
+}
+
+/// Steps 1 -+ 2^-22: finer than what an f32 can hold next to the carried position (|position| in
+/// [8, 16) has an f32 grid of 2^-20), exactly representable in f64, so that the orbit of the
+/// unmodified code closes after 2^22 one-frame calls.
+fn fine_steps() -> Vec<f64> {
+    let e = (2.0f64).powi(-22);
+    vec![1.0 - e, 1.0 + e]
 }
 
 fn c07_items(tier: Tier) -> Vec<C07Item> {
@@ -395,7 +413,24 @@ fn c07_items(tier: Tier) -> Vec<C07Item> {
                     cfgs.push((Cfg::fast(kind, *ratio, 1.0, chunk, d), vec![]));
                 }
             }
-            items.push(C07Item { cfgs });
+            items.push(C07Item { cfgs, horizon: None });
+        }
+    }
+    // fine-grid steps, chunk size 1: millions of 1-frame chunks, orbit closes after 2^22 calls
+    for t in fine_steps() {
+        let Some(ratio) = ratio_for_step(t) else { continue };
+        let mut fine: Vec<Cfg> = vec![
+            Cfg::fast(Kind::FO, ratio, 1.0, 1, Degree::Linear),
+            Cfg::fast(Kind::FI, ratio, 1.0, 1, Degree::Linear),
+        ];
+        if !q {
+            fine.push(Cfg::sinc(Kind::SO, ratio, 1.0, 1, 8, 2, Interp::Nearest, Kernel::Probe));
+            fine.push(Cfg::sinc(Kind::SI, ratio, 1.0, 1, 8, 2, Interp::Nearest, Kernel::Probe));
+            fine.push(Cfg::fast(Kind::FO, ratio, 1.0, 1, Degree::Septic));
+            fine.push(Cfg::fast(Kind::FI, ratio, 1.0, 1, Degree::Septic));
+        }
+        for c in fine {
+            items.push(C07Item { cfgs: vec![(c, vec![])], horizon: Some(3 * (1 << 22) + 1000) });
         }
     }
     // FFT: every rate pair x chunk x sub
@@ -421,7 +456,7 @@ fn c07_items(tier: Tier) -> Vec<C07Item> {
             }
             cfgs.push((Cfg::fft(Kind::XX, a, b, chunk, 1), vec![]));
         }
-        items.push(C07Item { cfgs });
+        items.push(C07Item { cfgs, horizon: None });
     }
     items
 }
@@ -453,6 +488,11 @@ fn c07_one(acc: &mut C07Acc, cfg: &Cfg, sched: &Schedule, horizon: usize, journa
     let (_fin, fout) = if cfg.kind.is_fft() { fft_sizes(cfg) } else { (0, 0) };
     let (ra, rb) = (cfg.rate_in as u128, cfg.rate_out as u128);
     let mut seen: HashMap<(u64, usize, usize), (usize, u64, u64)> = HashMap::new();
+    // beyond MAP_CAP states the map stops growing and Brent's algorithm (one reference state,
+    // moved at powers of two) finds the cycle in constant memory
+    const MAP_CAP: usize = 50_000;
+    let mut brent_ref: Option<((u64, usize, usize), usize, u64, u64)> = None;
+    let mut brent_power = 1usize;
     let (mut tin, mut tout) = (0u64, 0u64);
     let mut hist: Vec<Op> = Vec::new();
     // expand the schedule into a cyclic op list
@@ -488,12 +528,23 @@ fn c07_one(acc: &mut C07Acc, cfg: &Cfg, sched: &Schedule, horizon: usize, journa
     loop {
         let phase = step_i % cyc.len();
         let key = (fp_ctrl(&r.state()), phase, 0usize);
-        if let Some((_, pin, pout)) = seen.get(&key) {
+        let hit: Option<(u64, u64)> = match seen.get(&key) {
+            Some((_, pin, pout)) => Some((*pin, *pout)),
+            None => match &brent_ref {
+                Some((k, _, pin, pout)) if *k == key => Some((*pin, *pout)),
+                _ => None,
+            },
+        };
+        if let Some((pin, pout)) = hit {
             // lasso closed: the cycle must carry no drift
             acc.closed += 1;
             let (din, dout) = (tin - pin, tout - pout);
+            let step = 1.0 / ratio;
             let exact = if cfg.kind.is_fft() {
                 (din as u128) * rb == (dout as u128) * ra
+            } else if (step * (2.0f64).powi(24)).fract() == 0.0 && dout < (1 << 28) {
+                // dyadic step: out * step == in, computed exactly
+                (dout as f64) * step == (din as f64)
             } else {
                 (dout as f64) == (din as f64) * ratio
             };
@@ -506,7 +557,19 @@ fn c07_one(acc: &mut C07Acc, cfg: &Cfg, sched: &Schedule, horizon: usize, journa
             }
             break;
         }
-        seen.insert(key, (step_i, tin, tout));
+        if seen.len() < MAP_CAP {
+            seen.insert(key, (step_i, tin, tout));
+        } else {
+            match &brent_ref {
+                Some((_, at, _, _)) if step_i - *at < brent_power => {}
+                _ => {
+                    if brent_ref.is_some() {
+                        brent_power *= 2;
+                    }
+                    brent_ref = Some((key, step_i, tin, tout));
+                }
+            }
+        }
         acc.states += 1;
         if calls >= horizon {
             acc.caps += 1;
@@ -515,13 +578,19 @@ fn c07_one(acc: &mut C07Acc, cfg: &Cfg, sched: &Schedule, horizon: usize, journa
         }
         let op = cyc[phase];
         if let Some(j) = journal {
-            let mut h = hist.clone();
-            h.push(op);
-            j.write(&cfg.to_json(), &history_text(&h));
+            if sched.is_empty() {
+                j.write(&cfg.to_json(), &format!("P*{}", step_i + 1));
+            } else {
+                let mut h = hist.clone();
+                h.push(op);
+                j.write(&cfg.to_json(), &history_text(&h));
+            }
         }
         let o = r.apply(op);
         acc.transitions += 1;
-        hist.push(op);
+        if hist.len() < 100 || (journal.is_some() && !sched.is_empty()) {
+            hist.push(op);
+        }
         step_i += 1;
         match o.res {
             Res::Ok(i, n) => {
@@ -580,7 +649,7 @@ impl Check for C07 {
     fn run_item(&self, tier: Tier, idx: usize, journal: Option<&JournalFile>) -> Result<Value, String> {
         let item = c07_items(tier).into_iter().nth(idx).ok_or("no item")?;
         let mut acc = C07Acc { states: 0, transitions: 0, closed: 0, caps: 0, found: vec![], outcomes: vec![], samples: vec![], worst_margin: 0.0 };
-        let horizon = if tier == Tier::Quick { 3000 } else { 20000 };
+        let horizon = item.horizon.unwrap_or(if tier == Tier::Quick { 3000 } else { 20000 });
         let label = item.cfgs.first().map(|c| c.0.short()).unwrap_or_default();
         for (cfg, sched) in &item.cfgs {
             if cfg.kind.is_fft() && (fft_sizes(cfg).0 == 0) {
